@@ -1,0 +1,13 @@
+//go:build verif
+
+// Package vhook provides trace points for external verification tooling.
+package vhook
+
+// Sink receives every event. It must be set before any traced code runs.
+var Sink func(event string, fields ...any)
+
+func Emit(event string, fields ...any) {
+	if s := Sink; s != nil {
+		s(event, fields...)
+	}
+}
